@@ -15,9 +15,30 @@ build() { # $1 = output name, rest = extra flags
 
 mkdir -p "$ROOT/bin" "$ROOT/work" "$ROOT/evidence" "$ROOT/replays"
 
+selftest() {
+  # the machinery must report a planted panic, wrong output, process death and hang - and nothing else
+  local out
+  rm -rf "$ROOT/work/selftest"; mkdir -p "$ROOT/work/selftest"
+  out=$("$ROOT/bin/verifrun" supervise -prop S00 -tier quick -root "$ROOT/work/selftest" 2>&1)
+  local n; n=$(echo "$out" | grep -c '^VIOLATION property=S00')
+  if [ "$n" = 4 ] && echo "$out" | grep -q 'signature: selftest:panic@' && echo "$out" | grep -q 'signature: selftest:wrong-output' \
+     && echo "$out" | grep -q 'signature: fatal@.*planted process death' && echo "$out" | grep -q 'signature: watchdog@hang' \
+     && ! echo "$out" | grep -q 'engine-broken'; then
+    echo "selftest ok: planted panic, wrong output, process death and hang were all reported"
+    rm -rf "$ROOT/work/selftest"
+    return 0
+  fi
+  echo "SELFTEST FAILED" >&2; echo "$out" >&2; return 2
+}
+
 case "${1:-}" in
   --build)
-    build verifrun; build verifrun-race -race; exit 0;;
+    build verifrun; build verifrun-race -race
+    ( cd "$ROOT/harness" && go test -tags verif -count=1 ./internal/... ) || { echo "REFERENCE MODEL TESTS FAILED" >&2; exit 2; }
+    selftest || exit 2
+    exit 0;;
+  --selftest)
+    build verifrun; selftest; exit $?;;
   --replay)
     f="${2:?replay file}"
     prop=$(python3 -c "import json,sys;print(json.load(open(sys.argv[1]))['property'])" "$f")
